@@ -72,6 +72,21 @@ def locate(src, m, selector):
         if len(cands) != 1:
             raise ExtractError("anchor lost or ambiguous (%d): %s" % (len(cands), selector))
         return cands[0]
+    if toks[0] == 'mod' and len(toks) > 2:
+        # `mod NAME <selector>`: search inside the inline module's braces
+        mname = toks[1]
+        found = []
+        for pos, w in rl.word_iter(src, m):
+            if w == 'mod' and src[pos + 3:].lstrip().startswith(mname):
+                ob = rl.find_body_open(src, m, pos)
+                if ob > 0 and src[pos + 3:ob].strip() == mname:
+                    found.append((ob, rl.match_close(src, m, ob)))
+        if len(found) != 1:
+            raise ExtractError("anchor lost: mod %s" % mname)
+        cands = _find_in(src, m, found[0][0] + 1, found[0][1], toks[2:], 0)
+        if len(cands) != 1:
+            raise ExtractError("anchor lost or ambiguous (%d): %s" % (len(cands), selector))
+        return cands[0]
     cands = _find_in(src, m, lo, hi, toks, want_depth)
     if len(cands) != 1:
         raise ExtractError("anchor lost or ambiguous (%d): %s" % (len(cands), selector))
@@ -133,7 +148,7 @@ def _find_in(src, m, lo, hi, toks, want_depth):
 
 # ----------------------------------------------------------------------------- normal form (E2–E4)
 
-def normal_form(text, allow_cfg=False):
+def normal_form(text, allow_cfg=False, keep_pub=False):
     drops = {'comments': 0, 'attributes': [], 'visibility': 0, 'log_statements': []}
     m = rl.mask(text)
     # E2 comments
@@ -179,7 +194,7 @@ def normal_form(text, allow_cfg=False):
     pat = re.compile(r'\bpub(\s*\([^)]*\))?\s+')
     last = 0
     for mm in pat.finditer(text):
-        if m[mm.start()] != 'c':
+        if m[mm.start()] != 'c' or keep_pub:
             continue
         res.append(text[last:mm.start()])
         last = mm.end()
@@ -484,10 +499,22 @@ def annotate(nf, directives, kind):
                     break
                 hits.append(j)
                 i = j + len(old)
+            # hits already covered by an earlier (more specific) rewrite are skipped
+            taken = [(o[0], o[1]) for o in ops.ops if o[3] == 'rep']
+            hits = [j for j in hits if not any(s0 < j + len(old) and j < e0 for (s0, e0) in taken)]
             if not hits or (name == 'rewrite' and len(hits) != 1):
                 raise ExtractError("anchor lost: rewrite %r matched %d times" % (old, len(hits)))
             for j in hits:
                 ops.replace(j, j + len(old), new, cls)
+        elif name == 'rewritere':
+            parts = [x.strip() for x in arg.split('@@')]
+            if len(parts) != 3:
+                raise ExtractError("rewritere needs CLASS @@ REGEX @@ NEW")
+            cls, rx, new = parts
+            hits = [mm for mm in re.finditer(rx, nf, flags=re.S) if m[mm.start()] == 'c']
+            if len(hits) != 1:
+                raise ExtractError("anchor lost: rewritere %r matched %d times" % (rx, len(hits)))
+            ops.replace(hits[0].start(), hits[0].end(), new, cls)
         elif name == 'execconst':
             mm = re.compile(r'\s*(const|static)\b').match(nf)
             if not mm:
@@ -505,7 +532,12 @@ def annotate(nf, directives, kind):
         elif name == 'rename':
             mm = re.compile(r'fn\s+([A-Za-z_][A-Za-z0-9_]*)').search(nf, fnpos)
             ops.replace(mm.start(1), mm.end(1), arg.strip(), 'rename')
-        elif name in ('allowcfg', 'fields'):
+        elif name == 'attr':
+            if not re.match(r'^#\[verifier::(loop_isolation\(false\)|allow_complex_invariants|spinoff_prover|rlimit\(\d+\))\]$', arg.strip()):
+                raise ExtractError("attr not allowed: %s" % arg)
+            mm0 = re.compile(r'\s*').match(nf)
+            ops.insert(mm0.end(), arg.strip() + '\n', 'E10-attr', prio=-5)
+        elif name in ('allowcfg', 'fields', 'keeppub'):
             pass
         else:
             raise ExtractError("unknown directive %s" % name)
@@ -593,8 +625,11 @@ def parse_unit(path):
             i += 1
         elif s.startswith('//@extract'):
             flush()
-            arg = s[len('//@extract'):].strip()
+            is_block = s.startswith('//@extractblock')
+            arg = s[len('//@extractblock' if is_block else '//@extract'):].strip()
             relpath, selector = [x.strip() for x in arg.split('|', 1)]
+            if is_block:
+                selector = 'BLOCK ' + selector
             directives = []
             i += 1
             cur = None
@@ -640,11 +675,19 @@ def generate(unit, repo):
             raise ExtractError("anchor lost: file %s" % relpath)
         src = open(fpath).read()
         m = rl.mask(src)
+        if selector.startswith('BLOCK '):
+            gen, binfo = generate_block(src, m, selector[6:], directives)
+            tag = '%s | %s' % (relpath, selector)
+            out.append('/*@beginblock %s*/\n' % tag + gen + '/*@end*/\n')
+            info['erasure_checked'] += 1
+            info['functions'].append({'item': 'statement block in ' + binfo['fn'] + ': ' + binfo['first'], 'file': relpath, 'line': binfo['line']})
+            info['extraction_drops'].append({'item': tag, 'E11_block': 'only the statements between the anchors are verified; the enclosing function %s is dropped' % binfo['fn']})
+            continue
         s, e = locate(src, m, selector)
         line = src.count('\n', 0, s) + 1
         item = src[s:e]
         dnames = [d[0] for d in directives]
-        nf, drops = normal_form(item, allow_cfg='allowcfg' in dnames)
+        nf, drops = normal_form(item, allow_cfg='allowcfg' in dnames, keep_pub='keeppub' in dnames)
         kind = 'fn' if ' fn ' in (' ' + selector) else selector.split()[0]
         narrowed = None
         for d in directives:
@@ -655,7 +698,7 @@ def generate(unit, repo):
                 narrowed = dropped
         gen, rewrites = annotate(nf, directives, kind)
         # erasure check against a *fresh* normal form of the source
-        fresh, _ = normal_form(src[s:e], allow_cfg='allowcfg' in dnames)
+        fresh, _ = normal_form(src[s:e], allow_cfg='allowcfg' in dnames, keep_pub='keeppub' in dnames)
         if narrowed is not None:
             fresh, _d = narrow_struct(fresh, fields)
         if squash(erase(gen)) != squash(fresh):
@@ -675,10 +718,65 @@ def generate(unit, repo):
     return ''.join(out), info
 
 
+def generate_block(src, m, selector, directives):
+    """E11: selector = '<fn selector> | K | START_LITERAL [| N]': N statements (default 1) starting at the K-th
+    statement that begins with START_LITERAL inside the function.  Directives: blocksig (header), sig, top."""
+    parts = [x.strip() for x in selector.split('|')]
+    fsel, k, lit = parts[0], int(parts[1]), parts[2]
+    count = int(parts[3]) if len(parts) > 3 else 1
+    s, e = locate(src, m, fsel)
+    nf, _ = normal_form(src[s:e])
+    nm = rl.mask(nf)
+    _, ob, cb = _fn_parts(nf, nm)
+    j = _stmt_anchor(nf, nm, lit, k, ob + 1, cb)
+    end = j
+    for _ in range(count):
+        while nf[end] in ' \t\n':
+            end += 1
+        end = _stmt_end(nf, nm, end, cb)
+    block = nf[j:end]
+    header = sig = top = ''
+    for (name, arg, text) in directives:
+        if name == 'blocksig':
+            header = arg.strip()
+        elif name == 'sig':
+            check_ghost(text, 'sig')
+            sig = text
+        elif name == 'top':
+            check_ghost(text, 'top')
+            top = text
+        elif name == 'tail':
+            pass
+        else:
+            raise ExtractError("directive %s not allowed in extractblock" % name)
+    if not re.match(r'^fn \w+\(.*\)( -> .*)?$', header):
+        raise ExtractError("extractblock needs //@blocksig fn name(params) [-> ret]")
+    tail = ''
+    for (name, arg, text) in directives:
+        if name == 'tail':
+            tail = arg.strip()
+    gen = '/*@+*/' + header + '\n' + sig.rstrip() + '\n{\n' + top + '/*@-*/' + block + '/*@+*/\n' + tail + '\n}\n/*@-*/'
+    if squash(erase(gen)) != squash(block):
+        raise ExtractError("erasure check failed for block")
+    line = src.count('\n', 0, s) + 1
+    return gen, {'fn': fsel, 'first': lit, 'line': line}
+
+
 def verify_erasure(gen_text, unit, repo):
     """Independent pass over the *generated file*: every /*@begin*/…/*@end*/ region,
     erased, must equal the normal form of the current source item."""
     n = 0
+    for mm in re.finditer(r'/\*@beginblock (.*?)\*/\n(.*?)/\*@end\*/', gen_text, flags=re.S):
+        tag, region = mm.group(1), mm.group(2)
+        relpath, selector = [x.strip() for x in tag.split('|', 1)]
+        parts = [x.strip() for x in selector[6:].split('|')]
+        src = open(os.path.join(repo, relpath)).read()
+        m = rl.mask(src)
+        s, e = locate(src, m, parts[0])
+        fresh, _ = normal_form(src[s:e])
+        if squash(erase(region)) not in squash(fresh) or len(squash(erase(region))) == 0:
+            raise ExtractError("erasure check failed (generated file) for block %s" % tag)
+        n += 1
     for mm in re.finditer(r'/\*@begin (.*?)\*/\n(.*?)/\*@end\*/', gen_text, flags=re.S):
         tag, region = mm.group(1), mm.group(2)
         relpath, selector = [x.strip() for x in tag.split('|', 1)]
@@ -687,7 +785,7 @@ def verify_erasure(gen_text, unit, repo):
         s, e = locate(src, m, selector)
         seg = [sg for sg in unit['segments'] if sg[0] == 'extract' and sg[1] == relpath and sg[2] == selector][0]
         dn = [d[0] for d in seg[3]]
-        fresh, _ = normal_form(src[s:e], allow_cfg='allowcfg' in dn)
+        fresh, _ = normal_form(src[s:e], allow_cfg='allowcfg' in dn, keep_pub='keeppub' in dn)
         for d in seg[3]:
             if d[0] == 'fields':
                 fresh, _x = narrow_struct(fresh, [x.strip() for x in d[1].split(',')])
